@@ -62,9 +62,15 @@ fn decompose(rng: &mut Rng, total: u64) -> Vec<u64> {
 /// A generated program: W1's valid operations batched into one text.
 thread_local! { static SUPPORTED: std::sync::Arc<std::collections::BTreeSet<String>> = crate::w1::load_supported("/verif/baselines/w1_supported.txt"); }
 
-pub fn generated_program(rng: &mut Rng, with_assignments: bool) -> String {
+pub fn generated_program(rng: &mut Rng, with_assignments: bool) -> String { generated_program_without(rng, with_assignments, &[]) }
+
+/// Same, with some value classes left out (W3 leaves out tuples: `compile()` does not terminate on
+/// tuple constants on the pinned tree, and every such program costs the producer deadline).
+pub fn generated_program_without(rng: &mut Rng, with_assignments: bool, without: &[&str]) -> String {
   use crate::w1::{gen, model};
   let mut knobs = gen::draw_knobs(rng, "C05");
+  knobs.classes.retain(|c| !without.contains(&c.as_str()));
+  if knobs.classes.is_empty() { knobs.classes = vec!["scalar".to_string(), "matrix".to_string()]; }
   knobs.fault_pm = 0;
   knobs.len = 3 + rng.usize(8);
   if !with_assignments { knobs.weights = vec![6, 3, 0, 0, 0, 0, 0, 0, 2, 3]; }
